@@ -184,7 +184,7 @@ impl<Idx: ZeroCopy + SerializeInner + TypeHash + AlignHash> SerializeInner
     for core::ops::RangeTo<Idx>
 {
     type SerType = Self;
-    const IS_ZERO_COPY: bool = true;
+    const IS_ZERO_COPY: bool = Idx::IS_ZERO_COPY;
     const ZERO_COPY_MISMATCH: bool = false;
 
     #[inline(always)]
@@ -214,7 +214,7 @@ impl<Idx: ZeroCopy + SerializeInner + TypeHash + AlignHash> SerializeInner
     for core::ops::RangeToInclusive<Idx>
 {
     type SerType = Self;
-    const IS_ZERO_COPY: bool = true;
+    const IS_ZERO_COPY: bool = Idx::IS_ZERO_COPY;
     const ZERO_COPY_MISMATCH: bool = false;
 
     #[inline(always)]
